@@ -9,6 +9,7 @@ package rtpconn
 import (
 	"fmt"
 	"reflect"
+	"runtime"
 	"slices"
 	"sort"
 	"strings"
@@ -54,7 +55,12 @@ type c07Sub struct {
 	// a per-stream request carried over to the stream that replaces it: it decides the replacement's first offer only
 	// (the new downstream starts without a per-stream request), later pushes follow the general request
 	inherit map[string][]string
-	other   int // non-ice messages of other kinds received in this step
+	// a per-stream request made while an announcement is still pending: whether it, the general request or (for a
+	// pending replacement) the replaced stream's request decides the next offer depends on which push arrives first;
+	// the statement says nothing about per-stream requests, so such a (subscriber, stream) pair is not compared while
+	// the stream lives (teardown is still checked)
+	loose map[string]bool
+	other int // non-ice messages of other kinds received in this step
 }
 
 type c07World struct {
@@ -309,18 +315,24 @@ func (w *c07World) check(step string, actor *simClient, selfOnly bool) {
 		}
 		// held == model
 		for id, sel := range sub.mheld {
+			if sub.loose[id] {
+				continue
+			}
 			h, ok := sub.held[id]
 			if !ok {
 				t.Fatalf("C07 after %s: %s requests %v for stream %s (label %q, tracks %v) but holds no downstream for it [%s]", step, sc.id, w.effReq(sub, w.streams[id]), id,
-					w.streams[id].label, w.streams[id].kinds, strings.Join(w.log[max(0, len(w.log)-6):], " ; "))
+					w.streams[id].label, w.streams[id].kinds, strings.Join(w.log[max(0, len(w.log)-16):], " ; "))
 			}
 			if !reflect.DeepEqual(h.tracks, sel) {
-				t.Fatalf("C07 after %s: %s was offered tracks %v of stream %s (kinds %v), its request %v selects %v", step, sc.id, h.tracks, id, w.streams[id].kinds, w.effReq(sub, w.streams[id]), sel)
+				t.Fatalf("C07 after %s: %s was offered tracks %v of stream %s (kinds %v), its request %v selects %v [%s]", step, sc.id, h.tracks, id, w.streams[id].kinds, w.effReq(sub, w.streams[id]), sel, strings.Join(w.log[max(0, len(w.log)-16):], " ; "))
 			}
 		}
 		for id := range sub.held {
 			if _, ok := sub.mheld[id]; !ok {
 				st := w.streams[id]
+				if sub.loose[id] && !st.ended && w.where[sc] == st.group {
+					continue
+				}
 				if sub.optional[id] && !st.ended && w.where[sc] == st.group {
 					// offered again by an announcement that was pending when the subscriber aborted
 					sel := c07Select(w.effReq(sub, st), st)
@@ -332,7 +344,7 @@ func (w *c07World) check(step string, actor *simClient, selfOnly bool) {
 					continue
 				}
 				t.Fatalf("C07 after %s: %s holds a downstream for stream %s (ended=%v, label %q) which it should not have (request %v) [%s]", step, sc.id, id, st.ended, st.label,
-					w.effReq(sub, st), strings.Join(w.log[max(0, len(w.log)-6):], " ; "))
+					w.effReq(sub, st), strings.Join(w.log[max(0, len(w.log)-16):], " ; "))
 			}
 		}
 		// a close is only sent for streams that ended, are not (or no longer) requested, or were aborted by the subscriber itself
@@ -389,6 +401,20 @@ var c07tRec = verifkit.New("TestVerif_C07_PushTimer",
 		"are issued without waiting, then the harness waits out the timer and compares every subscriber's downstreams with the model's final state; "+
 		"non-trivial = burst in which a stream was replaced or closed while its own announcement was still pending; distinct by operation log")
 
+// waitPushTimers returns when no delayed announcement (a goroutine started by pushConn) is left: the goroutine
+// dump is the clock, not a fixed sleep, so a loaded machine cannot make an announcement arrive "after the end".
+func waitPushTimers(t *rapid.T) {
+	buf := make([]byte, 4<<20)
+	for i := 0; i < 3000; i++ {
+		n := runtime.Stack(buf, true)
+		if !strings.Contains(string(buf[:n]), "created by github.com/jech/galene/rtpconn.pushConn ") {
+			return
+		}
+		time.Sleep(10 * time.Millisecond)
+	}
+	t.Fatalf("VERIF-HARNESS-ERROR: delayed announcements still pending after 30 s")
+}
+
 func TestVerif_C07_PushTimer(t *testing.T) {
 	defer c07tRec.Flush()
 	simSetup()
@@ -412,9 +438,12 @@ func c07Machine(t *rapid.T, timer bool, rec *verifkit.Rec) {
 		}
 		for _, sc := range w.s.cs {
 			w.subs[sc] = &c07Sub{sc: sc, pcs: map[string]*webrtc.PeerConnection{}, held: map[string]*c07Held{}, closes: map[string]int{}, offers: map[string]int{},
-				req: map[string][]string{}, perStr: map[string][]string{}, mheld: map[string][]string{}, optional: map[string]bool{}, inherit: map[string][]string{}}
+				req: map[string][]string{}, perStr: map[string][]string{}, mheld: map[string][]string{}, optional: map[string]bool{}, inherit: map[string][]string{}, loose: map[string]bool{}}
 		}
 		defer func() {
+			if timer {
+				waitPushTimers(t) // no announcement may outlive its case
+			}
 			for _, sub := range w.subs {
 				for _, pc := range sub.pcs {
 					pc.Close()
@@ -595,6 +624,9 @@ func c07Machine(t *rapid.T, timer bool, rec *verifkit.Rec) {
 				}
 				w.logf("%s requestStream %s %v", sc.id, id, r)
 				sub.perStr[id] = r
+				if w.timer && w.pending {
+					sub.loose[id] = true
+				}
 				if err := w.s.send(sc, clientMessage{Type: "requestStream", Id: id, Request: l}); err != nil {
 					t.Fatalf("requestStream: %v", err)
 				}
@@ -835,7 +867,7 @@ func c07Machine(t *rapid.T, timer bool, rec *verifkit.Rec) {
 					continue
 				}
 				if w.pending {
-					time.Sleep(240 * time.Millisecond)
+					waitPushTimers(t)
 					w.pending = false
 				}
 				selfOnly = false
